@@ -26,6 +26,7 @@ type GenCfg struct {
 	Preflight              bool
 	Local                  bool
 	Resources              bool
+	VMem bool // stages also ask for virtual address space
 	Volatile               bool
 	Retain                 bool
 	MapBias                bool     // prefer typed-map map calls
@@ -210,6 +211,9 @@ func (g *gen) genStage() {
 	if g.cfg.Resources && g.pick(2) == 0 {
 		s.Threads = []float64{1, 2, 0.5, 4, -2, 1.5, 2.5, 3.25, 4.75}[g.pick(9)]
 		s.MemGB = []float64{1, 2, 0.5, 6, -1, 1.5, 2.25, 6.5}[g.pick(8)]
+		if g.cfg.VMem {
+			s.VMemGB = []float64{0, 0, 2, 3.5, -1, 16, 1.5, 0.5}[g.pick(8)]
+		}
 	}
 	if g.cfg.Volatile {
 		switch g.pick(4) {
